@@ -332,15 +332,19 @@ def _check_case(case, res):
                 raise Broken("model does not satisfy its own query")
             wb = _model_witness_bits(m, d, model)
             real = run_real(case, text, dbg, wb)
-            if not real.get("ok"):
-                if real.get("stage") == "decode":
-                    res.setdefault("decode_failures", []).append(real.get("error"))
-                    continue
-                raise Broken("real pipeline failed at %s: %s" % (real.get("stage"), real.get("error")))
-            if real["success"] == concrete_fail:
-                raise Broken("translator validation: symbolic machine says %s, real Bit Machine says %s for %s with %s"
-                             % ("fail" if concrete_fail else "success", "success" if real["success"] else "fail",
-                                text, json.dumps(wb)))
+            # The solver has just proved machine == specification for all inputs; a concrete run of the
+            # real pipeline (satisfy -> encode -> decode -> Bit Machine) that disagrees is therefore a
+            # disagreement between the real code and the source semantics, shown on the real code.
+            real_fail = (not real.get("ok")) or (not real["success"])
+            if real.get("stage") in ("compile", "witness", "args", "request"):
+                raise Broken("real pipeline could not be driven: %s: %s" % (real.get("stage"), real.get("error")))
+            if real_fail != concrete_fail:
+                rec = {"property_case": case.cid, "text": text, "debug": dbg, "args": _arg_request(case), "witness": wb,
+                       "spec_verdict": "fail" if concrete_fail else "success", "real": real, "tags": case.tags}
+                return {"status": "violation", "kind": "pipeline", "replay_record": rec,
+                        "detail": "source semantics and symbolic execution of the emitted DAG: %s; real pipeline: %s%s" % (
+                            rec["spec_verdict"], "fail" if real_fail else "success",
+                            "" if real.get("ok") else " (stopped at %s: %s)" % (real.get("stage"), str(real.get("error"))[:120]))}
             if not (real["cmr_commit"] == real["cmr_redeem"] == real["cmr_decoded"]):
                 res.setdefault("cmr_mismatch", []).append(case.cid)
             res["validated"] += 1
